@@ -48,34 +48,14 @@ Theorem sorted_findings_canonical : forall fs fs',
 Proof. intros fs fs' H. split; [apply sort_findings_canonical; exact H|apply sort_findings_sorted]. Qed.
 Print Assumptions sorted_findings_canonical.
 
-(* Several roots.  The statement "Run over roots = union of Run over each root, no package twice" is
-   REFUTED for the code as it is: with two roots the first root's package is reported twice and the plugin
-   gets two status entries. *)
-Theorem multiroot_duplicates_refuted :
-  exists c roots, forallb fault_free roots = true /\ forallb wf_tree roots = true /\ no_limits c = true /\
-    c_paths c = [] /\ NoDup (c_exts c) /\
-    ~ Permutation (run_inv (run c roots)) (concat (map (single_inv c) roots)) /\
-    ~ NoDup (map fst (run_statuses (run c roots))).
-Proof. exact multiroot_refuted_lemma. Qed.
-Print Assumptions multiroot_duplicates_refuted.
-
-(* What the root loop does report, for any number of fault-free roots: the cumulative inventory once per
-   root (root i's packages n-i+1 times) and one status entry per plugin and root. *)
-Theorem multiroot_duplication_law : forall c roots,
+(* Several roots: filesystem.Run over any number of (fault-free) roots reports exactly the union of the single-root
+   runs -- every package once -- and one status per plugin. *)
+Theorem multiroot_is_union : forall c roots,
   forallb fault_free roots = true -> no_limits c = true -> no_xpanic c -> c_paths c = [] ->
-  exists sts st, run c roots = ROk (cumul [] (map (single_inv c) roots)) sts st /\
-                 (c_exts c <> [] -> map fst sts = flat_map (fun _ => c_exts c) roots).
-Proof. exact multiroot_law. Qed.
-Print Assumptions multiroot_duplication_law.
-
-(* On the domain D (every root but the last yields no package; in particular a single root) the reported
-   inventory is the union. *)
-Theorem multiroot_is_union_on_D : forall c roots,
-  forallb fault_free roots = true -> no_limits c = true -> no_xpanic c -> c_paths c = [] ->
-  dom_multiroot c roots = true ->
-  run_inv (run c roots) = concat (map (single_inv c) roots).
-Proof. exact multiroot_union_on_D. Qed.
-Print Assumptions multiroot_is_union_on_D.
+  exists sts st, run c roots = ROk (concat (map (single_inv c) roots)) sts st /\
+                 (c_exts c <> [] -> roots <> [] -> map fst sts = c_exts c).
+Proof. exact multiroot_union_lemma. Qed.
+Print Assumptions multiroot_is_union.
 
 (* non-vacuity *)
 Definition t_ab : node := Dc DOT [Dc nA [Fc nZ Reg 1 0; Fc nB Reg 1 0]; Fc nC Reg 1 0].
@@ -97,8 +77,8 @@ Example perm_calls_example :
   fs_calls base_cfg t_ba = [(e0, [nC]); (e0, [nA; nB]); (e0, [nA; nZ])].
 Proof. vm_compute. split; reflexivity. Qed.
 
-Example multiroot_domain_example :
-  dom_multiroot base_cfg [t_empty; t_one_file] = true /\ dom_multiroot base_cfg [t_one_file; t_empty] = false /\
-  length (run_inv (run base_cfg [t_one_file; t_empty])) = 2%nat /\
-  length (run_inv (run base_cfg [t_empty; t_one_file])) = 1%nat.
+Example multiroot_example :
+  run_inv (run base_cfg [t_one_file; t_empty]) = [(e0, pk1 [nA])] /\
+  run_inv (run base_cfg [t_one_file; t_one_file]) = [(e0, pk1 [nA]); (e0, pk1 [nA])] /\
+  map fst (run_statuses (run base_cfg [t_one_file; t_empty])) = [e0].
 Proof. vm_compute. repeat split; reflexivity. Qed.
